@@ -349,4 +349,60 @@ CrecExp(r, s) ==
                    \o EncU32(r.ttl) \o EncU16(RdLen(r.t, r.val)),
    canon |-> IF RecCanonPinned(r, s) THEN RecCanonCmp(r, s) ELSE Free,
    issues |-> <<>>]
+--------------------------------------------------------------------------
+(* Representations of record DATA.  The D of Record<N, D> is any            *)
+(* RecordData: the two enums, UnknownRecordData (RFC 3597: opaque octets),  *)
+(* or an implementation of the traits outside the library ("ext").  The     *)
+(* comparison impls of Record, of the enums and of UnknownRecordData take   *)
+(* two sets of type parameters: both sides may hold owner, names and octets *)
+(* differently (parsed in a message, Vec, Bytes).                           *)
+(*   The contract of CanonicalOrd for record data is RFC 4034 6.3: the      *)
+(* order of RDATA *within one RRset*.  What a D answers for two values of   *)
+(* different types is its own business (xans, any sign, antisymmetric).     *)
+(* The order of RECORDS is pinned through all three steps (owner, type,     *)
+(* RDATA), so Record::canonical_cmp must take the type step itself.         *)
+(* RecCanonVia is written the way the implementation works; RecRepLawM says *)
+(* it is the pinned order whatever D answers across types.                  *)
+DataReps == {"all", "zone", "unknown", "ext"}
+OpaqueRep(rep) == rep \in {"unknown", "ext"}
+SignOf(x, y) == IF x < y THEN -1 ELSE IF x = y THEN 0 ELSE 1
+\* the zone enum holds the meta types (and unknown ones) as opaque octets too
+HeldOpaque(rep, x) == OpaqueRep(rep) \/ (rep = "zone" /\ ZoneOpaque(x))
+\* canonical RDATA of a record as representation rep holds it
+RepCanonRd(rep, r) == IF HeldOpaque(rep, r.t) THEN ComposeRd(r.t, r.val) ELSE CanonRd(r.t, r.val)
+\* what D::canonical_cmp answers for the data of two records
+DataCanonAns(rep, xans, r, s) ==
+  IF r.code = s.code THEN LexCmp(RepCanonRd(rep, r), RepCanonRd(rep, s))
+  ELSE IF rep = "ext" THEN (IF r.code < s.code THEN xans ELSE Neg(xans))
+  ELSE SignOf(r.code, s.code)
+\* Record::canonical_cmp step by step: class, owner, type, then D's answer
+RecCanonVia(r, s, dans, mut) ==
+  IF r.class # s.class THEN SignOf(r.class, s.class)
+  ELSE IF ~NameEq(r.owner, s.owner) THEN CanonNameCmp(r.owner, s.owner)
+  ELSE IF r.code # s.code /\ "M_rec_no_type_step" \notin mut THEN SignOf(r.code, s.code)
+  ELSE dans
+\* the pinned order: owner | type | canonical RDATA, field by field
+RecRepCanonCmp(rep, r, s) ==
+  IF ~NameEq(r.owner, s.owner) THEN CanonNameCmp(r.owner, s.owner)
+  ELSE IF r.code # s.code THEN SignOf(r.code, s.code)
+  ELSE LexCmp(RepCanonRd(rep, r), RepCanonRd(rep, s))
+RecRepLawM(rep, xans, r, s, mut) ==
+  /\ RecCanonPinned(r, s) =>
+       RecCanonVia(r, s, DataCanonAns(rep, xans, r, s), mut) = RecRepCanonCmp(rep, r, s)
+  /\ ~HeldOpaque(rep, r.t) /\ ~HeldOpaque(rep, s.t) /\ RecCanonPinned(r, s)
+       => RecRepCanonCmp(rep, r, s) = RecCanonCmp(r, s)
+\* == : an opaque representation compares the RDATA octets; the zone enum
+\* holds the meta types opaquely
+RepRdEq(rep, r, s) ==
+  IF HeldOpaque(rep, r.t)
+  THEN ComposeRd(r.t, r.val) = ComposeRd(s.t, s.val)
+  ELSE RdEq(r.t, r.val, s.val)
+\* expectations for two records whose data both sides hold as rep (owner,
+\* names and octets held differently on the two sides): every pairing of
+\* holdings answers the same
+XrecExp(rep, r, s) ==
+  LET e == IF RecEqFree(r, s) THEN Free ELSE RecSameKey(r, s) /\ RepRdEq(rep, r, s)
+  IN [eq |-> e, cmp0 |-> e,
+      canon |-> IF RecCanonPinned(r, s) THEN RecRepCanonCmp(rep, r, s) ELSE Free,
+      hash_ok |-> TRUE, issues |-> <<>>]
 =============================================================================
